@@ -1,4 +1,4 @@
-import DFV.Lemmas.C03v
+import DFV.Lemmas.C03Alg
 /-!
 # C03 — field algebra is cell-wise numpy algebra on one mesh; operands stay untouched
 
@@ -426,8 +426,11 @@ example : (0 : Rat) ≤ exMesh.region.tol ∧ 0 ≤ exMesh.region.atol := by dec
 `eval_cellwise` / `eval_valid` / `eval_mesh`): every well-typed expression tree over
 well-formed fields on one mesh `M` — leaves, all 14 unary operations, `+ - * /` between
 fields with equal counts or a scalar field, with numbers, constant vectors of matching
-length and per-cell arrays on either side (plain Python or NumPy), `**` with a number
-exponent, `dot`, `cross`, `<<` and `angle` between fields, binary ufunc calls — **is accepted**; the result is a
+length and per-cell arrays on either side (plain Python or NumPy), `**` with a number,
+vector, array or field exponent (NumPy's integer-power rule permitting) and `NumPy number ** f`,
+`dot`, `cross`, `<<` between fields and with numbers / constant vectors on either side, `angle`
+with a field, number, vector or per-cell array, binary ufunc calls incl. `np.power` in both
+operand positions and an unlabelled scalar field first — **is accepted**; the result is a
 well-formed field **on `M`** with labels / mapping in constructor state, it carries exactly
 the statically predicted component count, labels, mapping, unit and dtype kind, every cell holds the
 same expression evaluated on that cell's component lists, and its validity is the AND of
@@ -441,7 +444,7 @@ theorem typed_total (env : Env) (M : Mesh) (hM : MeshOk M) (hgood : ∀ f ∈ en
   obtain ⟨g, hg, ⟨hwf, hst, hm⟩, h1, h2, h3, h4, h5⟩ := hasTy_sound env M hM hgood e t h
   have hwf' : ∀ f ∈ env.fields, CFwf f ∧ f.mesh.n = M.n :=
     fun f hf => ⟨(hgood f hf).1, by rw [(hgood f hf).2.2]⟩
-  have hok := hasTy_liftOk env M M.n e t h
+  have hok := hasTy_liftOk env M e t h
   obtain ⟨_, _, hc⟩ := eval_cellwise env M.n hwf' e hok g hg
   have hv := eval_valid env M.n hwf' e hok g hg
   exact ⟨g, hg, hm, hwf, hst, h1, h2, h3, h4, h5, fun i hi => ⟨hc i hi, hv i hi⟩⟩
@@ -700,7 +703,7 @@ theorem comm_same_field_partial (env : Env) (M : Mesh) (hM : MeshOk M) (hgood : 
   have hwf' : ∀ f ∈ env.fields, CFwf f ∧ f.mesh.n = M.n :=
     fun f hf => ⟨(hgood f hf).1, by rw [(hgood f hf).2.2]⟩
   exact ⟨g1, g2, h1, h2, m1, m2, a1, a2, a3, a4, a5,
-    comm_values env M.n hwf' b hb x y (hasTy_liftOk env M M.n x tx hx) (hasTy_liftOk env M M.n y ty hy) g1 g2 h1 h2⟩
+    comm_values env M.n hwf' b hb x y (hasTy_liftOk env M x tx hx) (hasTy_liftOk env M y ty hy) g1 g2 h1 h2⟩
 
 /-- **`x ∘ c` and `c ∘ x` carry the same metadata** (`∘ ∈ {+, *}`) for a well-typed subtree `x`
 and a number, a constant vector of matching length or a per-cell array `c` — plain Python
@@ -723,7 +726,7 @@ theorem comm_meta_raw (env : Env) (M : Mesh) (hM : MeshOk M) (hgood : ∀ f ∈ 
   have hwf' : ∀ f ∈ env.fields, CFwf f ∧ f.mesh.n = M.n :=
     fun f hf => ⟨(hgood f hf).1, by rw [(hgood f hf).2.2]⟩
   exact ⟨g1, g2, h1, h2, m1, m2, by rw [a1, b1], by rw [a2, b2], by rw [a3, b3], by rw [a4, b4], by rw [a5, b5],
-    comm_values env M.n hwf' b hb x (.opd od) (hasTy_liftOk env M M.n x t hx) trivial g1 g2 h1 h2⟩
+    comm_values env M.n hwf' b hb x (.opd od) (hasTy_liftOk env M x t hx) trivial g1 g2 h1 h2⟩
 
 example : RawFits exMesh.n (tyOf exA).nv exNpVec := Or.inl rfl
 
@@ -1039,5 +1042,756 @@ theorem divmod_law (a b : GQ) :
     (0 < b.re → 0 ≤ (GQ.pymod a b).re ∧ (GQ.pymod a b).re < b.re) ∧
     (b.re < 0 → b.re < (GQ.pymod a b).re ∧ (GQ.pymod a b).re ≤ 0) :=
   ⟨divmod_identity a b, pymod_range_pos a b, pymod_range_neg a b⟩
+
+/-! ## second extension round
+
+### (c) elementwise trees are the tree of scalars, entry by entry -/
+
+/-- **Entry-level theorem for every nesting depth (induction over trees).**  For every tree `e`
+built from the 14 unary operations, `+ - * / **` (forward, reflected, NumPy-dispatched) and
+binary ufunc calls over fields, numbers, constant vectors and arrays of any broadcastable
+shape: if the field-level evaluation is accepted with result `g`, then **every entry**
+`g.array[i ++ [c]]` (`i` a cell, `c < g.nvdim`) is the same tree evaluated on *numbers* — each
+field leaf and each array operand read at the NumPy-broadcast position `bproj shape (i ++ [c])`
+of its own shape (scalar fields, vectors and `n ++ [1]` arrays repeat, numbers are constants).
+No hypothesis on shapes beyond acceptance. -/
+theorem eval_scalar_tree (env : Env) (n : List Nat) (hwf : ∀ f ∈ env.fields, CFwf f ∧ f.mesh.n = n)
+    (e : Expr) (hel : e.elementwise = true) (g : CF) (h : evalF env e = .ok (.fld g)) :
+    ∀ i, inRange n i = true → ∀ c, c < g.nvdim → g.data.get (i ++ [c]) = scalarAt env e (i ++ [c]) := by
+  intro i hi c hc
+  obtain ⟨hw, hn, hcell⟩ := eval_cellwise env n hwf e (liftOk_of_elementwise n e hel) g h
+  have hwd := widthOk_of_eval env n hwf e (.fld g) hel h
+  have hlen : (evalCell env e i).length = g.nvdim := by rw [← hcell i hi, cellOf_length]
+  have hs := evalCell_scalar env n hwf i hi e hel hwd c (Or.inl (by rw [hlen]; exact hc))
+  rw [← hs, ← hcell i hi]
+  unfold compAt
+  rw [cellOf_length]
+  by_cases h1 : g.nvdim = 1
+  · have hc0 : c = 0 := by omega
+    subst hc0
+    simp only [h1, if_true, cellOf]
+    rw [getD_tab _ _ _ _ Nat.one_pos]
+  · simp only [h1, if_false, cellOf]
+    rw [getD_tab _ _ _ _ hc]
+
+/-- a nested elementwise tree: `(2 * s) ** 2 + np.maximum(-a, conj(b)) / vec` -/
+def exElemTree : Expr :=
+  .bin .add (.bin .pow (.bin .mul (.opd (.num ⟨2, 0⟩ .int false)) (.leaf 3)) (.opd (.num ⟨2, 0⟩ .int false)))
+    (.bin .div (.bin .umax (.un .neg (.leaf 0)) (.un .conj (.leaf 1))) (.opd exVec))
+
+example : exElemTree.elementwise = true ∧ evalOk exEnv exElemTree = true := by decide +kernel
+
+/-! ### (d) one table for the metadata of every binary operation -/
+
+/-- **The metadata table (`binTy`, `Lemmas/C03x.lean`) is exact for all 16 binary operations**
+between two well-formed fields on one mesh: `self ∘ other` is accepted **iff** the table has an
+entry (and NumPy's integer-power rule does not object); the accepted result is a well-formed
+field on that mesh whose component count, labels, mapping, unit and dtype kind are *exactly*
+the table's entry.  One row per family — `+ - * / **` (labels / mapping of the vector operand,
+no unit), `dot`, `angle` (unlabelled scalars; `rad`), `cross` (labels of `self`, default
+mapping), `<<` (concatenated labels / merged mapping when unique), ufunc calls (labels of the
+first field; an unlabelled scalar first gives default labels, a labelled one is refused). -/
+theorem binary_table (env : Env) (M : Mesh) (hM : MeshOk M) (f o : CF) (hf : Good M f) (ho : Good M o) (b : BinOp) :
+    (∀ g, applyBin env b (.fld f) (.fld o) = .ok (.fld g) →
+      Good M g ∧ binTy M b (tyOf f) (tyOf o) = some (tyOf g) ∧ negIntPow (isPow b) f.kind o.kind o.data = false) ∧
+    (∀ t, binTy M b (tyOf f) (tyOf o) = some t → negIntPow (isPow b) f.kind o.kind o.data = false →
+      ∃ g, applyBin env b (.fld f) (.fld o) = .ok (.fld g) ∧ Good M g ∧ tyOf g = t) := by
+  have hacc : ∀ t, binTy M b (tyOf f) (tyOf o) = some t → negIntPow (isPow b) f.kind o.kind o.data = false →
+      ∃ g, applyBin env b (.fld f) (.fld o) = .ok (.fld g) ∧ Good M g ∧ tyOf g = t := by
+    intro t ht hpw
+    obtain ⟨g, hg, hm⟩ := binTy_accepts env M hM f o hf ho b hpw t ht
+    exact ⟨g, hg, hm.1, tyOf_eq_of_hasMeta M g t hm⟩
+  refine ⟨fun g hg => ?_, hacc⟩
+  cases hpw : negIntPow (isPow b) f.kind o.kind o.data with
+  | true =>
+    obtain ⟨e, he⟩ := binTy_rejects env M f o hf ho b (Or.inr hpw)
+    rw [he] at hg; cases hg
+  | false =>
+    cases ht : binTy M b (tyOf f) (tyOf o) with
+    | none =>
+      obtain ⟨e, he⟩ := binTy_rejects env M f o hf ho b (Or.inl ht)
+      rw [he] at hg; cases hg
+    | some t =>
+      obtain ⟨g', hg', hgood, hty⟩ := hacc t ht hpw
+      rw [hg'] at hg
+      injection hg with hg; injection hg with hg; subst hg
+      exact ⟨hgood, by rw [hty], rfl⟩
+
+/-- **rejected ⇔ malformed** for two fields on one mesh: the step is an error exactly when the
+table has no entry for the two component counts / labels, or an integer field is raised to a
+negative integer power. -/
+theorem binary_rejected_iff (env : Env) (M : Mesh) (hM : MeshOk M) (f o : CF) (hf : Good M f) (ho : Good M o)
+    (b : BinOp) :
+    (∃ e, applyBin env b (.fld f) (.fld o) = .error e) ↔
+      (binTy M b (tyOf f) (tyOf o) = none ∨ negIntPow (isPow b) f.kind o.kind o.data = true) := by
+  constructor
+  · rintro ⟨e, he⟩
+    cases hpw : negIntPow (isPow b) f.kind o.kind o.data with
+    | true => exact Or.inr rfl
+    | false =>
+      cases ht : binTy M b (tyOf f) (tyOf o) with
+      | none => exact Or.inl rfl
+      | some t =>
+        obtain ⟨g, hg, _⟩ := (binary_table env M hM f o hf ho b).2 t ht hpw
+        rw [hg] at he; cases he
+  · exact binTy_rejects env M f o hf ho b
+
+/-- the table on the example fields: `a + b` keeps `a`'s labels, `s * a` takes `a`'s (D8), `a @ b`
+is an unlabelled scalar, `a & b` and `np.add(a, v3)` are refused, `np.add(s, a)` gets default labels -/
+example :
+    binTy exMesh .add (tyOf exA) (tyOf exB) = some ⟨2, some ["a", "b"], [], none, .complex⟩ ∧
+    binTy exMesh .mul (tyOf exS) (tyOf exA) = some ⟨2, some ["a", "b"], [], none, .complex⟩ ∧
+    binTy exMesh .dot (tyOf exA) (tyOf exB) = some ⟨1, none, [], none, .complex⟩ ∧
+    binTy exMesh .cross (tyOf exA) (tyOf exB) = none ∧
+    binTy exMesh .uadd (tyOf exA) (tyOf exV3) = none ∧
+    binTy exMesh .uadd (tyOf exS) (tyOf exA) = some ⟨2, some ["x", "y"], [], none, .complex⟩ ∧
+    binTy exMesh .shl (tyOf exS) (tyOf exA) = some ⟨3, some ["x", "y", "z"], [], none, .complex⟩ := by
+  decide +kernel
+
+/-- NumPy's integer-power rule, spelled out -/
+theorem intpow_rule (pw : Bool) (kb ke : Kind) (e : NDA GQ) :
+    negIntPow pw kb ke e = true ↔ (pw = true ∧ kb = .int ∧ ke = .int ∧ ∃ z ∈ e.toList, z.re < 0) := by
+  simp only [negIntPow, Bool.and_eq_true, decide_eq_true_eq, List.any_eq_true, and_assoc]
+
+/-! ### (b) `a ∘ b = b ∘ a`: the exact condition for labels and mapping -/
+
+/-- **`self ∘ other` and `other ∘ self` for two fields (`∘` any of `+ - * /` with functions `fn`,
+`fn'`): both orders are accepted whenever the counts broadcast; both results are well-formed
+fields on the one mesh; component count, unit and dtype kind always agree; labels and mapping agree _if and only if_ the counts differ (scalar
+with vector — D8 repaired) or both operands carry the same labels and the same mapping.**  The
+exact complement — equal counts with different labels or mappings — is where the code
+violates the "same field" clause: open findings D10 (several components) and D51 (one). -/
+theorem comm_meta_iff (fn fn' : GQ → GQ → GQ) (M : Mesh) (hM : MeshOk M) (f o : CF) (hf : Good M f) (ho : Good M o)
+    (d : Nat) (hd : bdim f.nvdim o.nvdim = some d) :
+    ∃ g1 g2, applyOperator fn false f (.fld o) = .ok g1 ∧ applyOperator fn' false o (.fld f) = .ok g2 ∧
+      Good M g1 ∧ Good M g2 ∧ g1.nvdim = g2.nvdim ∧ g1.unit = g2.unit ∧ g1.kind = g2.kind ∧
+      ((g1.vdims = g2.vdims ∧ g1.vmap = g2.vmap) ↔
+        (f.nvdim ≠ o.nvdim ∨ (f.vdims = o.vdims ∧ f.vmap = o.vmap))) := by
+  obtain ⟨g1, h1, hg1, n1, v1, m1, u1, k1⟩ :=
+    binary_fields_meta fn false M hM f o hf ho d hd (negIntPow_false _ _ _)
+  obtain ⟨g2, h2, hg2, n2, v2, m2, u2, k2⟩ :=
+    binary_fields_meta fn' false M hM o f ho hf d (by rw [bdim_comm]; exact hd) (negIntPow_false _ _ _)
+  refine ⟨g1, g2, h1, h2, hg1, hg2, by rw [n1, n2], by rw [u1, u2],
+    by rw [k1, k2, Kind.join_comm], ?_⟩
+  rw [v1, v2, m1, m2]
+  have hpf := hf.1.2.2
+  have hpo := ho.1.2.2
+  obtain ⟨hd1, hd2⟩ := bdim_some _ _ _ hd
+  by_cases hne : f.nvdim = o.nvdim
+  · have c1 : ¬ (f.nvdim = 1 ∧ 1 < o.nvdim) := by omega
+    have c2 : ¬ (o.nvdim = 1 ∧ 1 < f.nvdim) := by omega
+    rw [if_neg c1, if_neg c1, if_neg c2, if_neg c2]
+    constructor
+    · intro h; exact Or.inr h
+    · rintro (h | h)
+      · exact absurd hne h
+      · exact h
+  · constructor
+    · intro _; exact Or.inl hne
+    · intro _
+      by_cases c1 : f.nvdim = 1 ∧ 1 < o.nvdim
+      · have c2 : ¬ (o.nvdim = 1 ∧ 1 < f.nvdim) := by omega
+        rw [if_pos c1, if_pos c1, if_neg c2, if_neg c2]
+        exact ⟨rfl, rfl⟩
+      · have c2 : o.nvdim = 1 ∧ 1 < f.nvdim := by
+          by_cases h1 : f.nvdim = 1
+          · rw [if_pos h1] at hd1; omega
+          · rw [if_neg h1] at hd1; omega
+        rw [if_neg c1, if_neg c1, if_pos c2, if_pos c2]
+        exact ⟨rfl, rfl⟩
+
+example : bdim exA.nvdim exB.nvdim = some 2 ∧ exA.nvdim = exB.nvdim ∧ exA.vdims ≠ exB.vdims := by decide
+
+/-- **`x ∘ y` and `y ∘ x` are the same field iff …, for whole subtrees** (`∘ ∈ {+, *}`, no success
+hypothesis): for well-typed subtrees `x`, `y` whose counts broadcast, both orders are accepted,
+both results live on `M`, agree in component count, unit, dtype kind, in **every cell** and in
+validity; they agree in labels and mapping — i.e. are the same field — **iff** the counts differ
+or `x` and `y` carry the same labels and mapping (complement: D10 / D51). -/
+theorem comm_same_field_iff (env : Env) (M : Mesh) (hM : MeshOk M) (hgood : ∀ f ∈ env.fields, Good M f)
+    (b : BinOp) (hb : b = .add ∨ b = .mul) (x y : Expr) (tx ty : Ty)
+    (hx : HasTy env M x tx) (hy : HasTy env M y ty) (d : Nat) (hd : bdim tx.nv ty.nv = some d) :
+    ∃ g1 g2, evalF env (.bin b x y) = .ok (.fld g1) ∧ evalF env (.bin b y x) = .ok (.fld g2) ∧
+      g1.mesh = M ∧ g2.mesh = M ∧ g1.nvdim = g2.nvdim ∧ g1.unit = g2.unit ∧ g1.kind = g2.kind ∧
+      (∀ i, inRange M.n i = true →
+        cellOf g1.data i g1.nvdim = cellOf g2.data i g2.nvdim ∧ g1.valid.get i = g2.valid.get i) ∧
+      ((g1.vdims = g2.vdims ∧ g1.vmap = g2.vmap) ↔ (tx.nv ≠ ty.nv ∨ (tx.vdims = ty.vdims ∧ tx.vmap = ty.vmap))) := by
+  obtain ⟨f, hf, hfg, f1, f2, f3, _⟩ := hasTy_sound env M hM hgood x tx hx
+  obtain ⟨o, ho, hog, o1, o2, o3, _⟩ := hasTy_sound env M hM hgood y ty hy
+  have hd1 : bdim f.nvdim o.nvdim = some d := by rw [f1, o1]; exact hd
+  obtain ⟨g1, g2, h1, h2, hg1, hg2, e2, e3, e4, e5⟩ := comm_meta_iff (binFn b) (binFn b) M hM f o hfg hog d hd1
+  have hba : isArith b = true := by rcases hb with rfl | rfl <;> rfl
+  have hpw : isPow b = false := by rcases hb with rfl | rfl <;> rfl
+  have hev1 : evalF env (.bin b x y) = .ok (.fld g1) := by
+    rw [evalF_bin env b x y _ _ hf ho, applyBin_arithpow_eq env b (Or.inl hba), hpw, h1]; rfl
+  have hev2 : evalF env (.bin b y x) = .ok (.fld g2) := by
+    rw [evalF_bin env b y x _ _ ho hf, applyBin_arithpow_eq env b (Or.inl hba), hpw, h2]; rfl
+  have hwf' : ∀ f ∈ env.fields, CFwf f ∧ f.mesh.n = M.n :=
+    fun f hf => ⟨(hgood f hf).1, by rw [(hgood f hf).2.2]⟩
+  refine ⟨g1, g2, hev1, hev2, hg1.2.2, hg2.2.2, e2, e3, e4,
+    comm_values env M.n hwf' b hb x y (hasTy_liftOk env M x tx hx) (hasTy_liftOk env M y ty hy) g1 g2 hev1 hev2, ?_⟩
+  rw [e5, f1, o1, f2, o2, f3, o3]
+
+/-! ### (a) acceptance of the operand combinations that had no acceptance theorem -/
+
+/-- **`f << number`, `f << vector`, `number << f`, `list << f`**: a number or a constant vector of
+`m ≥ 1` entries (not mesh-shaped) is lifted to an unlabelled field with default labels and
+mapping on `f`'s mesh, and the stack is accepted in either operand order (a plain Python
+operand on the left goes through `__rlshift__`); the result has `k + m` components, no unit,
+and the labels / mapping `<<` gives for the field and the lifted operand (`shlTy`). -/
+theorem shl_raw_meta (env : Env) (M : Mesh) (hM : MeshOk M) (f : CF) (hf : Good M f) (od : Opd)
+    (hfit : LiftFits M.n od) :
+    (∃ g, applyBin env .shl (.fld f) (.raw od) = .ok (.fld g) ∧ Good M g ∧
+      tyOf g = shlTy M (tyOf f) (liftTy M od)) ∧
+    (isNp od = false → ∃ g, applyBin env .shl (.raw od) (.fld f) = .ok (.fld g) ∧ Good M g ∧
+      tyOf g = shlTy M (liftTy M od) (tyOf f)) := by
+  obtain ⟨o, ho, hog, o1, o2, o3, o4, o5⟩ := liftOpd_accepts M hM od hfit
+  have e2 : tyOf o = liftTy M od := by
+    simp only [tyOf, liftTy]; rw [o1, o2, o3, o4, o5]
+  refine ⟨?_, fun hnp => ?_⟩
+  · obtain ⟨g, hg, hgm⟩ := shl_hasMeta env M hM f o hf hog
+    refine ⟨g, ?_, hgm.1, by rw [← e2]; exact tyOf_eq_of_hasMeta M g _ hgm⟩
+    simp only [applyBin, forwardOp, shlOp]
+    rw [hf.2.2, ho]
+    simpa only [applyBin, forwardOp, shlOp] using hg
+  · obtain ⟨g, hg, hgm⟩ := shl_hasMeta env M hM o f hog hf
+    refine ⟨g, ?_, hgm.1, by rw [← e2]; exact tyOf_eq_of_hasMeta M g _ hgm⟩
+    simp only [applyBin, hnp, Bool.false_eq_true, if_false, reflectedOp]
+    rw [hf.2.2, ho]
+    simpa only [applyBin, forwardOp, shlOp] using hg
+
+/-- a constant vector with three entries (the example mesh has two cells, so `exVec` is
+mesh-shaped and stands for per-cell scalars under `<<` / `angle`) -/
+def exVec3 : Opd := .arr (NDA.ofList [3] [⟨1, 0⟩, ⟨-1, 0⟩, ⟨2, 0⟩] GQ.zero) .float false
+
+example : LiftFits exMesh.n exVec3 := ⟨3, by decide, rfl, by decide⟩
+
+/-- **`f.angle(number)`, `f.angle(vector)`, `f.angle(per-cell array)`**: accepted for a number when
+`f` is a scalar field, for a constant vector of `nvdim` entries and for a per-cell array of the
+field's own shape (not mesh-shaped); an unlabelled scalar field without mapping, unit `rad`. -/
+theorem angle_raw_meta (sq acos : Rat → Rat) (M : Mesh) (hM : MeshOk M) (f : CF) (hf : Good M f) (od : Opd)
+    (hfit : AngleFits M.n f.nvdim od) :
+    ∃ g, angleOp sq acos f (.raw od) = .ok g ∧ Good M g ∧ g.nvdim = 1 ∧ g.vdims = none ∧ g.vmap = [] ∧
+      g.unit = some "rad" ∧ g.kind = .float :=
+  angleOp_raw_accepts sq acos M hM f hf od hfit
+
+example : AngleFits exMesh.n exV3.nvdim exVec3 := ⟨Or.inl rfl, by decide⟩
+
+/-- **a scalar field first in a ufunc call, a vector field second** (`np.add(s, v)`, `np.power(s, v)`):
+accepted **iff** the scalar field carries no label; the result then has the vector's count, the
+*default* labels for that count (not the vector's), an empty mapping and no unit. -/
+theorem ufunc_scalar_first (fn : GQ → GQ → GQ) (M : Mesh) (hM : MeshOk M) (f o : CF) (hf : Good M f) (ho : Good M o)
+    (h1 : f.nvdim = 1) (h2 : 1 < o.nvdim) :
+    ((∃ g, ufunc2 fn false (.fld f) (.fld o) = .ok g) ↔ f.vdims = none) ∧
+    (f.vdims = none → ∃ g, ufunc2 fn false (.fld f) (.fld o) = .ok g ∧ Good M g ∧ g.nvdim = o.nvdim ∧
+      g.vdims = Fld.defaultVdims o.nvdim ∧ g.vmap = [] ∧ g.unit = none ∧ g.kind = (f.kind.join o.kind).ctor) := by
+  have hacc := fun hvd => ufunc2_sf_accepts fn false M hM f o hf ho h1 hvd (negIntPow_false _ _ _)
+  refine ⟨⟨fun ⟨g, hg⟩ => ?_, fun hvd => ?_⟩, hacc⟩
+  · cases hvd : f.vdims with
+    | none => rfl
+    | some l =>
+      obtain ⟨e, he⟩ := ufunc2_sf_rejected fn false f o hf.1 hf.2.1 ho.1 (by rw [hf.2.2, ho.2.2]) h1 h2 l hvd
+      rw [he] at hg; cases hg
+  · obtain ⟨g, hg, _⟩ := hacc hvd
+    exact ⟨g, hg⟩
+
+example : Good exMesh exS ∧ exS.nvdim = 1 ∧ 1 < exA.nvdim ∧ exS.vdims = none :=
+  ⟨⟨⟨rfl, rfl, by decide⟩, ⟨by decide +kernel, by decide +kernel⟩, rfl⟩, rfl, by decide, rfl⟩
+
+/-- **`f ** g` for two fields and `f ** array`**: accepted exactly when the component counts
+broadcast and NumPy's integer-power rule does not object (two integer dtypes with a negative
+exponent entry); for a constant vector of matching length / per-cell array exponent likewise. -/
+theorem pow_accepts_iff (M : Mesh) (hM : MeshOk M) (f o : CF) (hf : Good M f) (ho : Good M o) :
+    ((∃ g, applyOperator GQ.pow true f (.fld o) = .ok g) ↔
+      ((bdim f.nvdim o.nvdim).isSome = true ∧ negIntPow true f.kind o.kind o.data = false)) ∧
+    (∀ od, RawFits f.mesh.n f.nvdim od →
+      ((∃ g, applyOperator GQ.pow true f (.raw od) = .ok g) ↔ negIntPow true f.kind (rawKind od) (rawArr od) = false)) := by
+  refine ⟨⟨fun ⟨g, hg⟩ => ?_, fun ⟨h1, h2⟩ => ?_⟩, fun od hfit => ⟨fun ⟨g, hg⟩ => ?_, fun h => ?_⟩⟩
+  · cases hd : bdim f.nvdim o.nvdim with
+    | none =>
+      obtain ⟨e, he⟩ := applyOperator_fld_nvdim_rejected GQ.pow true f o hd
+      rw [he] at hg; cases hg
+    | some d =>
+      refine ⟨rfl, ?_⟩
+      cases hp : negIntPow true f.kind o.kind o.data with
+      | false => rfl
+      | true =>
+        obtain ⟨e, he⟩ := applyOperator_fld_negpow_rejected GQ.pow true f o hp
+        rw [he] at hg; cases hg
+  · cases hd : bdim f.nvdim o.nvdim with
+    | none => rw [hd] at h1; cases h1
+    | some d =>
+      obtain ⟨g, hg, _⟩ := applyOperator_fld_accepts GQ.pow true M hM f o hf ho d hd h2
+      exact ⟨g, hg⟩
+  · cases hp : negIntPow true f.kind (rawKind od) (rawArr od) with
+    | false => rfl
+    | true =>
+      exfalso
+      cases od with
+      | num z k np =>
+        simp only [rawKind, rawArr] at hp
+        simp only [applyOperator, hp, if_true] at hg
+        cases hg
+      | arr a k np =>
+        simp only [rawKind, rawArr] at hp
+        simp only [applyOperator, hp, if_true] at hg
+        split at hg
+        · cases hg
+        · split at hg <;> cases hg
+  · obtain ⟨g, hg, _⟩ := applyOperator_raw_accepts GQ.pow true M f hf od hfit h
+    exact ⟨g, hg⟩
+
+/-- a tree that uses the newly typed combinations: `np.power(2.0, s) * (a ** b) << [1, -1, 2]` and
+`angle` with a vector -/
+example : ∃ t, HasTy exEnv1 exMesh
+    (.bin .shl (.bin .mul (.bin .upow (.opd (.num ⟨2, 0⟩ .float true)) (.leaf 2)) (.bin .pow (.leaf 0) (.leaf 1)))
+      (.opd exVec3)) t :=
+  ⟨_, .shlFR _ exVec3 _
+        (.arithFF .mul _ _ _ _ 2 rfl
+          (.upowRF _ _ _ (.leaf 2 exS rfl) trivial trivial (Or.inl (by decide)))
+          (.powFF _ _ _ _ 2 (.leaf 0 exA rfl) (.leaf 1 exB rfl) (by decide) (Or.inl (by decide))) (by decide))
+        ⟨3, by decide, rfl, by decide⟩⟩
+
+/-- `np.add(s, a)` (unlabelled scalar first) and `v3.angle([1, -1, 2])` -/
+example : (∃ t, HasTy exEnv1 exMesh (.bin .uadd (.leaf 2) (.leaf 0)) t) ∧
+    (∃ t, HasTy exEnv3 exMesh (.bin .angle (.leaf 0) (.opd exVec3)) t) :=
+  ⟨⟨_, .ufuncSF .uadd _ _ _ _ rfl (.leaf 2 exS rfl) (.leaf 0 exA rfl) rfl (by decide) rfl (by intro h; cases h)⟩,
+   ⟨_, .angleFR _ exVec3 _ (.leaf 0 exV3 rfl) ⟨Or.inl rfl, by decide⟩⟩⟩
+
+/-! ### (e) validity through whole programs, no success hypothesis -/
+
+/-- **validity of a typed program is the AND over its field leaves**: for every well-typed tree
+(now including `**` between fields, `np.power`, `<<` / `angle` with numbers and vectors) the
+evaluation is accepted and a cell of the result is valid exactly when it is valid in every field
+leaf of the tree — operator paths, reflected operators, `dot`/`cross`/`<<`/`angle` and ufunc
+calls alike; numbers, vectors and arrays never invalidate a cell. -/
+theorem typed_valid_leaves (env : Env) (M : Mesh) (hM : MeshOk M) (hgood : ∀ f ∈ env.fields, Good M f)
+    (e : Expr) (t : Ty) (h : HasTy env M e t) :
+    ∃ g, evalF env e = .ok (.fld g) ∧
+      ∀ i, inRange M.n i = true → g.valid.get i = e.leaves.all (leafValid env i) := by
+  obtain ⟨g, hg, _, _, _, _, _, _, _, _, hc⟩ := typed_total env M hM hgood e t h
+  exact ⟨g, hg, fun i hi => by rw [(hc i hi).2, valid_is_and_of_leaves]⟩
+
+/-! ### the other forms of the ufunc protocol: `reduce`, `accumulate`, `outer`, `out=` -/
+
+/-- **Reductions: accepted ⇔ identity.**  `np.<ufunc>.reduce(f, axis=ax, keepdims=keep)` on a
+well-formed field (any axis of the array — a mesh axis or the component axis) is accepted **iff**
+`keepdims` is set and the reduced axis has length 1, and then the result has `f`'s values,
+validity, labels and mapping: every call that actually reduces something — and every call
+with `axis=None` or without `keepdims` — is refused. -/
+theorem reduce_ok_iff (fn : GQ → GQ → GQ) (M : Mesh) (hM : MeshOk M) (f : CF) (hf : Good M f) (h0 : M.n ≠ [])
+    (ax : Nat) (hax : ax < f.data.shape.length) (keep : Bool) :
+    ((∃ g, ufuncReduce fn f (some ax) keep = .ok g) ↔ (keep = true ∧ f.data.shape.getD ax 0 = 1)) ∧
+    (∀ g, ufuncReduce fn f (some ax) keep = .ok g →
+      Good M g ∧ g.nvdim = f.nvdim ∧ g.vdims = f.vdims ∧ g.vmap = f.vmap ∧
+      (∀ idx, inRange (M.n ++ [f.nvdim]) idx = true → g.data.get idx = f.data.get idx) ∧
+      (∀ i, inRange M.n i = true → g.valid.get i = f.valid.get i)) ∧
+    (∃ e, ufuncReduce fn f none keep = .error e) := by
+  have h0' : f.mesh.n ≠ [] := by rw [hf.2.2]; exact h0
+  have hiff : (∃ g, ufuncReduce fn f (some ax) keep = .ok g) ↔ (keep = true ∧ f.data.shape.getD ax 0 = 1) := by
+    constructor
+    · rintro ⟨g, hg⟩
+      cases keep with
+      | false =>
+        obtain ⟨e, he⟩ := ufuncReduce_nokeep_rejected fn f hf.1 h0' ax hax
+        rw [he] at hg; cases hg
+      | true =>
+        refine ⟨rfl, ?_⟩
+        by_contra hne
+        obtain ⟨e, he⟩ := ufuncReduce_keep_rejected fn f hf.1 hf.2.1 ax hax hne
+        rw [he] at hg; cases hg
+    · rintro ⟨rfl, hlen⟩
+      obtain ⟨g, hg, _⟩ := ufuncReduce_keep_accepts fn M hM f hf ax hax hlen
+      exact ⟨g, hg⟩
+  refine ⟨hiff, fun g hg => ?_, ufuncReduce_none_rejected fn f keep h0'⟩
+  obtain ⟨hk, hlen⟩ := hiff.mp ⟨g, hg⟩
+  subst hk
+  obtain ⟨g', hg', hgg, h1, h2, h3, _, _, hd, hv⟩ := ufuncReduce_keep_accepts fn M hM f hf ax hax hlen
+  rw [hg] at hg'
+  injection hg' with hg'
+  subst hg'
+  rw [hf.2.2] at hd hv
+  exact ⟨hgg, h1, h2, h3, hd, hv⟩
+
+def reduceOk (f : CF) (ax : Option Nat) (keep : Bool) : Bool :=
+  match ufuncReduce GQ.add f ax keep with
+  | .ok _ => true
+  | _ => false
+/-- `np.add.reduce(a)` and `np.add.reduce(a, axis=-1, keepdims=True)` are refused for the
+two-component field; for the scalar field the latter is the (accepted) identity -/
+example : reduceOk exA (some 0) false = false ∧ reduceOk exA (some 1) true = false ∧ reduceOk exA none false = false ∧
+    reduceOk exS (some 1) true = true ∧ reduceOk exS (some 0) true = false := by decide +kernel
+
+/-- **`np.<ufunc>.accumulate(f, axis)` is accepted for every axis** and is the running fold along
+that axis: a well-formed field on the same mesh with `f`'s labels, mapping and validity; the
+entries with index 0 along the axis are `f`'s own, and each further entry is `fn` of its
+predecessor along the axis and `f`'s entry (recurrence law). -/
+theorem accumulate_law (fn : GQ → GQ → GQ) (M : Mesh) (hM : MeshOk M) (f : CF) (hf : Good M f) (ax : Nat)
+    (hax : ax < f.data.shape.length) :
+    ∃ g, ufuncAccumulate fn f ax = .ok g ∧ Good M g ∧ g.nvdim = f.nvdim ∧ g.vdims = f.vdims ∧
+      g.vmap = f.vmap ∧ g.unit = none ∧
+      (∀ i, inRange M.n i = true → g.valid.get i = f.valid.get i) ∧
+      (∀ idx, inRange (M.n ++ [f.nvdim]) idx = true → idx.getD ax 0 = 0 → g.data.get idx = f.data.get idx) ∧
+      (∀ idx j, inRange (M.n ++ [f.nvdim]) idx = true → idx.getD ax 0 = j + 1 →
+        inRange (M.n ++ [f.nvdim]) (setAt idx ax j) = true →
+        g.data.get idx = fn (g.data.get (setAt idx ax j)) (f.data.get idx)) := by
+  obtain ⟨g, hg, hgg, h1, h2, h3, h4, _, hd, hv⟩ := ufuncAccumulate_accepts fn M hM f hf ax hax
+  rw [hf.2.2] at hd hv
+  have hlen : ∀ idx, inRange (M.n ++ [f.nvdim]) idx = true → ax < idx.length := by
+    intro idx hidx
+    rw [inRange_length _ _ hidx, ← hf.2.2, ← hf.1.1]
+    exact hax
+  refine ⟨g, hg, hgg, h1, h2, h3, h4, hv, fun idx hidx h0 => ?_, fun idx j hidx hj hidx' => ?_⟩
+  · rw [hd idx hidx, h0, foldAxis_one, ← h0, setAt_getD_self]
+  · rw [hd idx hidx, hd _ hidx', hj, foldAxis_succ, getD_setAt_self _ _ _ (hlen idx hidx), foldAxis_setAt,
+      ← hj, setAt_getD_self]
+
+/-- **`np.<ufunc>.outer(f, g)` is always refused** (the result has the axes of both arrays) -/
+theorem outer_rejected (fn : GQ → GQ → GQ) (f o : CF) (hf : CFwf f) (ho : CFwf o) :
+    ∃ e, ufuncOuter fn f o = .error e :=
+  ufuncOuter_rejected fn f o hf ho
+
+/-- **`np.<ufunc>(l, r, out=h)`, entry by entry.**  If the call returns a field `g` (inputs
+well-formed, `h` well-formed): some input is a field `self`, `g` lives on `self`'s mesh, which has
+`h`'s cell counts; **every entry of `h`'s array is now `fn` of the inputs read at their
+NumPy-broadcast positions, `g` holds the same entries**, `g` is valid where all field inputs are
+— and `h` keeps its own mesh, validity, labels, mapping and unit (`out_state_kept`). -/
+theorem out_entries (fn : GQ → GQ → GQ) (pw : Bool) (rk : Kind → Kind → Kind) (l r : Val) (out g : CF)
+    (hwo : CFwf out) (hwl : ∀ f, l = .fld f → CFwf f) (hwr : ∀ f, r = .fld f → CFwf f)
+    (h : (ufunc2out fn pw rk l r out).res = .ok g) :
+    ∃ self a ka b kb, firstFld l r = some self ∧ ufuncInput l = .ok (a, ka) ∧ ufuncInput r = .ok (b, kb) ∧
+      g.mesh = self.mesh ∧ self.mesh.n = out.mesh.n ∧ g.nvdim = out.nvdim ∧ CFwf g ∧ g.kind = out.kind.ctor ∧
+      (∀ idx, (ufunc2out fn pw rk l r out).out.data.get idx =
+        fn (a.get (bproj a.shape idx)) (b.get (bproj b.shape idx))) ∧
+      (∀ idx, inRange (out.mesh.n ++ [out.nvdim]) idx = true →
+        g.data.get idx = (ufunc2out fn pw rk l r out).out.data.get idx) ∧
+      (∀ i, inRange out.mesh.n i = true → g.valid.get i = (ufuncValid self l r).get i) :=
+  ufunc2out_ok fn pw rk l r out g hwo hwl hwr h
+
+/-- **whatever the outcome, the `out` field keeps everything but its array** — in particular its
+validity mask is *not* updated to the validity of the result — and its array is only touched
+when every check before the NumPy call passed (input types, meshes of the inputs, power rule)
+and NumPy could broadcast and cast into it. -/
+theorem out_state_kept (fn : GQ → GQ → GQ) (pw : Bool) (rk : Kind → Kind → Kind) (l r : Val) (out : CF) :
+    ((ufunc2out fn pw rk l r out).out.mesh = out.mesh ∧ (ufunc2out fn pw rk l r out).out.nvdim = out.nvdim ∧
+      (ufunc2out fn pw rk l r out).out.valid = out.valid ∧ (ufunc2out fn pw rk l r out).out.vdims = out.vdims ∧
+      (ufunc2out fn pw rk l r out).out.vmap = out.vmap ∧ (ufunc2out fn pw rk l r out).out.unit = out.unit ∧
+      (ufunc2out fn pw rk l r out).out.kind = out.kind ∧
+      (ufunc2out fn pw rk l r out).out.data.shape = out.data.shape) ∧
+    ((ufunc2out fn pw rk l r out).out = out ∨
+      ∃ a ka b kb out', ufuncInput l = .ok (a, ka) ∧ ufuncInput r = .ok (b, kb) ∧
+        negIntPow pw ka kb b = false ∧ outWrite fn (rk ka kb) a b out = .ok out' ∧
+        (ufunc2out fn pw rk l r out).out = out') :=
+  ⟨ufunc2out_state_kept fn pw rk l r out, ufunc2out_out_cases fn pw rk l r out⟩
+
+/-- **`np.<ufunc>(f, o, out=h)` is accepted** for two fields on one mesh whose result has `f`'s
+component count and a field `h` with the same cell counts and component count whose dtype the
+result can be cast to — **whatever mesh `h` lives on** (the mesh of `out` is never compared):
+the returned field is well-formed on the inputs' mesh, carries `f`'s labels and mapping, no unit
+and `h`'s dtype kind. -/
+theorem out_accepts_meta (fn : GQ → GQ → GQ) (pw : Bool) (rk : Kind → Kind → Kind) (M : Mesh) (hM : MeshOk M)
+    (f o out : CF) (hf : Good M f) (ho : Good M o) (hwo : CFwf out) (hn : out.mesh.n = M.n)
+    (hnv : out.nvdim = f.nvdim) (hd : bdim f.nvdim o.nvdim = some f.nvdim)
+    (hk : (rk f.kind o.kind).castable out.kind = true) (hpw : negIntPow pw f.kind o.kind o.data = false) :
+    ∃ g, (ufunc2out fn pw rk (.fld f) (.fld o) out).res = .ok g ∧ Good M g ∧ g.nvdim = f.nvdim ∧
+      g.vdims = f.vdims ∧ g.vmap = f.vmap ∧ g.unit = none ∧ g.kind = out.kind.ctor :=
+  ufunc2out_ff_accepts fn pw rk M hM f o out hf ho hwo hn hnv hd hk hpw
+
+/-- `h` on the other mesh `exMesh2`, same cell counts -/
+example : Good exMesh exA ∧ Good exMesh exB ∧ CFwf exC ∧ exC.mesh.n = exMesh.n ∧ exC.mesh ≠ exMesh ∧
+    (Kind.join exA.kind exB.kind).castable exC.kind = true :=
+  ⟨⟨⟨rfl, rfl, by decide⟩, ⟨by decide +kernel, by decide +kernel⟩, rfl⟩,
+   ⟨⟨rfl, rfl, by decide⟩, ⟨by decide +kernel, by decide +kernel⟩, rfl⟩,
+   ⟨rfl, rfl, by decide⟩, rfl, by decide +kernel, by decide⟩
+
+def outRefused (o : OutRes) : Bool :=
+  match o.res with
+  | .ok _ => false
+  | .error _ => true
+
+/-- **a call with `out=` can be refused after `out` was overwritten** (the code as it stands): for
+the scalar field `s` labelled `s1`, `np.add(s, s, out=a)` with the two-component field `a`
+writes `s + s` into both components of `a` and then raises `NotImplementedError` (one label
+for two components). -/
+theorem out_written_then_refused :
+    outRefused (ufunc2out GQ.add false Kind.join (.fld exS1) (.fld exS1) exA) = true ∧
+    (ufunc2out GQ.add false Kind.join (.fld exS1) (.fld exS1) exA).out.data.get [0, 1] = ⟨4, 0⟩ ∧
+    exA.data.get [0, 1] = ⟨2, 0⟩ := by
+  decide +kernel
+
+/-! ### rejected ⇔ malformed across meshes, and for arrays of arbitrary shape -/
+
+/-- **`self ∘ other` for two fields on their own meshes (`+ - * / **`): accepted ⇔ well-formed
+combination.**  For a well-formed field `f` on `M` and `o` on `M'`, `_apply_operator` accepts
+**iff** `M.allclose(M')` holds, the component counts broadcast and NumPy's integer-power rule
+does not object; the accepted result is a well-formed field on `M` (the mesh of `self`) with the
+broadcast count.  So "fields on different meshes or with incompatible component counts are
+rejected" is an equivalence on this path: nothing else is rejected, nothing of this is accepted. -/
+theorem fields_ok_iff (fn : GQ → GQ → GQ) (pw : Bool) (M M' : Mesh) (f o : CF) (hf : Good M f) (ho : Good M' o) :
+    ((∃ g, applyOperator fn pw f (.fld o) = .ok g) ↔
+      (meshAllclose M M' = .ok true ∧ (bdim f.nvdim o.nvdim).isSome = true ∧
+        negIntPow pw f.kind o.kind o.data = false)) ∧
+    (∀ g, applyOperator fn pw f (.fld o) = .ok g → Good M g ∧ bdim f.nvdim o.nvdim = some g.nvdim) := by
+  have hacc : meshAllclose M M' = .ok true → ∀ d, bdim f.nvdim o.nvdim = some d →
+      negIntPow pw f.kind o.kind o.data = false →
+      ∃ g, applyOperator fn pw f (.fld o) = .ok g ∧ Good M g ∧ g.nvdim = d := by
+    intro hc d hd hp
+    obtain ⟨g, hg, hgg, hn, _⟩ := applyOperator_fld_accepts_close fn pw M M' f o hf ho hc d hd hp
+    exact ⟨g, hg, hgg, hn⟩
+  have hfwd : ∀ g, applyOperator fn pw f (.fld o) = .ok g →
+      meshAllclose M M' = .ok true ∧ (∃ d, bdim f.nvdim o.nvdim = some d) ∧
+        negIntPow pw f.kind o.kind o.data = false := by
+    intro g hg
+    refine ⟨?_, ?_, ?_⟩
+    · by_contra hne
+      obtain ⟨e, he⟩ := checkSame_mesh f o true (by rw [hf.2.2, ho.2.2]; exact hne)
+      simp only [applyOperator, he] at hg
+      cases hg
+    · cases hd : bdim f.nvdim o.nvdim with
+      | some d => exact ⟨d, rfl⟩
+      | none =>
+        obtain ⟨e, he⟩ := applyOperator_fld_nvdim_rejected fn pw f o hd
+        rw [he] at hg; cases hg
+    · cases hp : negIntPow pw f.kind o.kind o.data with
+      | false => rfl
+      | true =>
+        obtain ⟨e, he⟩ := applyOperator_fld_negpow_rejected fn pw f o hp
+        rw [he] at hg; cases hg
+  refine ⟨⟨fun ⟨g, hg⟩ => ?_, fun ⟨h1, h2, h3⟩ => ?_⟩, fun g hg => ?_⟩
+  · obtain ⟨h1, ⟨d, hd⟩, h3⟩ := hfwd g hg
+    exact ⟨h1, by rw [hd]; rfl, h3⟩
+  · cases hd : bdim f.nvdim o.nvdim with
+    | none => rw [hd] at h2; cases h2
+    | some d =>
+      obtain ⟨g, hg, _⟩ := hacc h1 d hd h3
+      exact ⟨g, hg⟩
+  · obtain ⟨h1, ⟨d, hd⟩, h3⟩ := hfwd g hg
+    obtain ⟨g', hg', hgg, hn⟩ := hacc h1 d hd h3
+    rw [hg] at hg'
+    injection hg' with hg'
+    subst hg'
+    exact ⟨hgg, by rw [hd, hn]⟩
+
+/-- the same mesh under another object identity / with corners inside the tolerance is `allclose` -/
+example : meshAllclose exMesh { exMesh with subs := [("r", exRegion)] } = .ok true := by decide +kernel
+
+/-- binary ufuncs also accept two fields whose meshes are merely `allclose` (result on `self`'s mesh) -/
+theorem ufunc_fields_close (fn : GQ → GQ → GQ) (M M' : Mesh) (hM : MeshOk M) (f o : CF) (hf : Good M f)
+    (ho : Good M' o) (hclose : meshAllclose M M' = .ok true) (hd : bdim f.nvdim o.nvdim = some f.nvdim) :
+    ∃ g, ufunc2 fn false (.fld f) (.fld o) = .ok g ∧ Good M g ∧ g.nvdim = f.nvdim ∧ g.vdims = f.vdims ∧
+      g.vmap = f.vmap ∧ g.unit = none :=
+  let ⟨g, h, hg, h1, h2, h3, h4, _⟩ :=
+    ufunc2_ff_accepts_close fn false M M' hM f o hf ho hclose hd (negIntPow_false _ _ _)
+  ⟨g, h, hg, h1, h2, h3, h4⟩
+
+/-- **A field and an array of arbitrary shape: the exact acceptance conditions of both operand
+orders (the precise extent of open finding D52).**  For a well-formed field `f` with `nvdim = k`
+on a mesh with cell counts `n` and an array `a` of any shape:
+
+* `f ∘ a` (`_apply_operator`, also `list ∘ f` through the reflected methods) is accepted **iff**
+  `a` is not 0-d, passes the guard (`a.shape = n ++ [k]`, or `len(a) = k`, or `k = 1`), broadcasts
+  with `f.array` to some `n ++ [m]` (`m ≥ 1`, the mesh's own cell counts), and `m = k` or `f`
+  has no mapping;
+* `a ∘ f` for a NumPy array (`__array_ufunc__`) is accepted **iff** `a` broadcasts with `f.array`
+  to some `n ++ [m]` and `m = k` or `f` has no labels.
+
+Hence the two orders differ exactly for 0-d arrays, arrays that fail the guard although they
+broadcast (e.g. `n ++ [1]` for `k > 1`), and labelled scalar fields without mapping combined with
+wider arrays. -/
+theorem array_operand_ok_iff (fn fn' : GQ → GQ → GQ) (M : Mesh) (hM : MeshOk M) (f : CF) (hf : Good M f)
+    (a : NDA GQ) (k : Kind) (np : Bool) :
+    ((∃ g, applyOperator fn false f (.raw (.arr a k np)) = .ok g) ↔
+      (a.shape ≠ [] ∧ (f.data.shape = a.shape ∨ f.nvdim = a.shape.headD 0 ∨ f.nvdim = 1) ∧
+        ∃ m, 0 < m ∧ bshape (M.n ++ [f.nvdim]) a.shape = some (M.n ++ [m]) ∧ (m = f.nvdim ∨ f.vmap = []))) ∧
+    ((∃ g, ufunc2 fn' false (.raw (.arr a k true)) (.fld f) = .ok g) ↔
+      ∃ m, 0 < m ∧ bshape a.shape (M.n ++ [f.nvdim]) = some (M.n ++ [m]) ∧ (m = f.nvdim ∨ f.vdims = none)) :=
+  ⟨applyOperator_arr_ok_iff fn M f hf a k np, ufunc2_arr_ok_iff fn' M hM f hf a k⟩
+
+/-- the witness of `comm_accept_fails` in these terms: `np.ones((2, 2))` broadcasts with the labelled
+scalar field `s1` to `n ++ [2]`; `s1` has no mapping (operator path accepts) but a label (ufunc path refuses) -/
+example : bshape (exMesh.n ++ [exS1.nvdim]) [2, 2] = some (exMesh.n ++ [2]) ∧ exS1.vmap = [] ∧ exS1.vdims ≠ none := by
+  decide
+
+/-! ### stacking reproduces labels and mapping exactly for default-labelled fields -/
+
+/-- **the stack `f.l₀ << … << f.lₖ₋₁` also reproduces the labels and the mapping of `f` iff `f`
+carries the default labels for its count and the default mapping** (the component fields are
+unlabelled scalars; custom labels and mappings do not survive the round trip — values,
+validity, mesh and count always do, `stack_components_total`). -/
+theorem stack_meta_iff (M : Mesh) (hM : MeshOk M) (f : CF) (hf : Good M f) (vd : List String)
+    (hvd : f.vdims = some vd) :
+    ∃ g, stackComps f = .ok g ∧
+      ((g.vdims = f.vdims ∧ g.vmap = f.vmap) ↔
+        (f.vdims = Fld.defaultVdims f.nvdim ∧
+          f.vmap = vmapDefault f.nvdim M.region.ndim (Fld.defaultVdims f.nvdim) M.region.dims)) := by
+  obtain ⟨g, hg, _, _, _, h4, h5⟩ := stack_components_total M hM f hf vd hvd
+  rw [vmapSet_none_eq] at h5
+  injection h5 with h5
+  refine ⟨g, hg, ?_⟩
+  rw [h4, ← h5]
+  constructor
+  · rintro ⟨a, b⟩; exact ⟨a.symm, b.symm⟩
+  · rintro ⟨a, b⟩; exact ⟨a.symm, b.symm⟩
+
+/-- **typed elementwise trees, entry by entry, without success hypothesis**: every well-typed tree
+without `dot` / `cross` / `<<` / `angle` is accepted and every entry of the result is the tree of
+scalars at that entry (`eval_scalar_tree` with the acceptance discharged by `typed_total`). -/
+theorem typed_scalar_tree (env : Env) (M : Mesh) (hM : MeshOk M) (hgood : ∀ f ∈ env.fields, Good M f)
+    (e : Expr) (t : Ty) (h : HasTy env M e t) (hel : e.elementwise = true) :
+    ∃ g, evalF env e = .ok (.fld g) ∧ g.mesh = M ∧ g.nvdim = t.nv ∧
+      ∀ i, inRange M.n i = true → ∀ c, c < t.nv → g.data.get (i ++ [c]) = scalarAt env e (i ++ [c]) := by
+  obtain ⟨g, hg, hm, _, _, hn, _⟩ := typed_total env M hM hgood e t h
+  have hwf' : ∀ f ∈ env.fields, CFwf f ∧ f.mesh.n = M.n :=
+    fun f hf => ⟨(hgood f hf).1, by rw [(hgood f hf).2.2]⟩
+  exact ⟨g, hg, hm, hn, fun i hi c hc => eval_scalar_tree env M.n hwf' e hel g hg i hi c (by rw [hn]; exact hc)⟩
+
+/-! ### the conditional laws of round 1 with their acceptance discharged -/
+
+/-- **`x @ y = y @ x`, `x & y = -(y & x)` and `-(-x) = x`, `conj(conj x) = x` on typed trees, no success
+hypothesis**: for well-typed subtrees with equal component counts both dot products are accepted
+and agree in every cell and in validity; with three components each both cross products are
+accepted and are each other's negative; the double negation / double conjugation of any
+well-typed tree is accepted and has the values and validity of the tree itself. -/
+theorem laws_typed (env : Env) (M : Mesh) (hM : MeshOk M) (hgood : ∀ f ∈ env.fields, Good M f)
+    (x y : Expr) (tx ty : Ty) (hx : HasTy env M x tx) (hy : HasTy env M y ty) :
+    (tx.nv = ty.nv → ∃ g1 g2, evalF env (.bin .dot x y) = .ok (.fld g1) ∧ evalF env (.bin .dot y x) = .ok (.fld g2) ∧
+      ∀ i, inRange M.n i = true →
+        cellOf g1.data i g1.nvdim = cellOf g2.data i g2.nvdim ∧ g1.valid.get i = g2.valid.get i) ∧
+    (tx.nv = 3 → ty.nv = 3 →
+      ∃ g1 g2, evalF env (.bin .cross x y) = .ok (.fld g1) ∧ evalF env (.bin .cross y x) = .ok (.fld g2) ∧
+      ∀ i, inRange M.n i = true →
+        cellOf g2.data i g2.nvdim = (cellOf g1.data i g1.nvdim).map GQ.neg ∧ g1.valid.get i = g2.valid.get i) ∧
+    (∀ u, u = UnOp.neg ∨ u = UnOp.conj →
+      ∃ f g, evalF env x = .ok (.fld f) ∧ evalF env (.un u (.un u x)) = .ok (.fld g) ∧
+      ∀ i, inRange M.n i = true →
+        cellOf g.data i g.nvdim = cellOf f.data i f.nvdim ∧ g.valid.get i = f.valid.get i) := by
+  have hwf' : ∀ f ∈ env.fields, CFwf f ∧ f.mesh.n = M.n :=
+    fun f hf => ⟨(hgood f hf).1, by rw [(hgood f hf).2.2]⟩
+  have lx := hasTy_liftOk env M x tx hx
+  have ly := hasTy_liftOk env M y ty hy
+  refine ⟨fun hn => ?_, fun h3 h3' => ?_, fun u hu => ?_⟩
+  · obtain ⟨g1, h1, _⟩ := hasTy_sound env M hM hgood _ _ (HasTy.dotFF x y tx ty hx hy hn)
+    obtain ⟨g2, h2, _⟩ := hasTy_sound env M hM hgood _ _ (HasTy.dotFF y x ty tx hy hx hn.symm)
+    exact ⟨g1, g2, h1, h2, dot_comm_values env M.n hwf' x y lx ly g1 g2 h1 h2⟩
+  · obtain ⟨g1, h1, _⟩ := hasTy_sound env M hM hgood _ _
+      (HasTy.crossFF x y tx ty _ hx hy h3 h3' (vmapSet_none_eq _ _ _ _))
+    obtain ⟨g2, h2, _⟩ := hasTy_sound env M hM hgood _ _
+      (HasTy.crossFF y x ty tx _ hy hx h3' h3 (vmapSet_none_eq _ _ _ _))
+    exact ⟨g1, g2, h1, h2, cross_anticomm_values env M.n hwf' x y lx ly g1 g2 h1 h2⟩
+  · obtain ⟨f, h0, _⟩ := hasTy_sound env M hM hgood x tx hx
+    obtain ⟨g, h1, _⟩ := hasTy_sound env M hM hgood _ _ (HasTy.un u _ _ (HasTy.un u x tx hx))
+    exact ⟨f, g, h0, h1, involution_values env M.n hwf' u hu x lx f g h0 h1⟩
+
+example : HasTy exEnv1 exMesh (.leaf 0) (tyOf exA) ∧ HasTy exEnv1 exMesh (.leaf 1) (tyOf exB) ∧
+    (tyOf exA).nv = (tyOf exB).nv := ⟨.leaf 0 exA rfl, .leaf 1 exB rfl, rfl⟩
+
+/-- **`np.divmod(f, g)` on two fields: accepted and cell-wise, in one statement** — `pair_cellwise`
+with its success hypothesis discharged by `pair_accepts_meta`. -/
+theorem pair_total (fn1 fn2 : GQ → GQ → GQ) (c : Bool) (M : Mesh) (hM : MeshOk M) (f o : CF)
+    (hf : Good M f) (ho : Good M o) (hd : bdim f.nvdim o.nvdim = some f.nvdim)
+    (hk : c = true ∨ (f.kind ≠ .complex ∧ o.kind ≠ .complex)) :
+    ∃ g1 g2, ufunc2pair fn1 fn2 c (.fld f) (.fld o) = .ok (g1, g2) ∧ Good M g1 ∧ Good M g2 ∧
+      ∀ i, inRange M.n i = true →
+        cellOf g1.data i g1.nvdim = bz fn1 (cellOf f.data i f.nvdim) (cellOf o.data i o.nvdim) ∧
+        cellOf g2.data i g2.nvdim = bz fn2 (cellOf f.data i f.nvdim) (cellOf o.data i o.nvdim) ∧
+        g1.valid.get i = (f.valid.get i && o.valid.get i) ∧ g2.valid.get i = (f.valid.get i && o.valid.get i) := by
+  obtain ⟨g1, g2, h, hg1, hg2, _⟩ := pair_accepts_meta fn1 fn2 c M hM f o hf ho hd hk
+  obtain ⟨_, _, _, _, hc⟩ := pair_cellwise fn1 fn2 c M.n f o g1 g2 hf.1 ho.1 (by rw [hf.2.2]) (by rw [ho.2.2]) h
+  exact ⟨g1, g2, h, hg1, hg2, hc⟩
+
+/-! non-vacuity of the hypotheses of the ufunc-method theorems on the example fields -/
+
+def accOk (f : CF) (ax : Nat) : Bool :=
+  match ufuncAccumulate GQ.add f ax with
+  | .ok _ => true
+  | _ => false
+def outOk (o : OutRes) : Bool := !outRefused o
+/-- `np.add.accumulate(a, axis=0)` and `axis=-1`; `np.add(a, b, out=c)` with `c` on the other mesh;
+`b` on `exMesh`, `c` on `exMesh2` are well-formed fields on their meshes -/
+example : accOk exA 0 = true ∧ accOk exA 1 = true ∧ 1 < exA.data.shape.length ∧
+    outOk (ufunc2out GQ.add false Kind.join (.fld exA) (.fld exB) exC) = true ∧
+    Good exMesh exB ∧ Good exMesh2 exC ∧ meshAllclose exMesh exMesh2 ≠ .ok true :=
+  ⟨by decide +kernel, by decide +kernel, by decide, by decide +kernel,
+   ⟨⟨rfl, rfl, by decide⟩, ⟨by decide +kernel, by decide +kernel⟩, rfl⟩,
+   ⟨⟨rfl, rfl, by decide⟩, ⟨by decide +kernel, by decide +kernel⟩, rfl⟩, by decide +kernel⟩
+
+/-! ### algebraic laws for whole subtrees -/
+
+/-- the imaginary unit as a plain Python `complex` operand -/
+def exI : Opd := .num ⟨0, 1⟩ .complex false
+
+/-- **Ring laws hold cell by cell for arbitrary elementwise subtrees `a`, `b`, `c` (any depth, any
+broadcastable mix of scalar fields, vector fields, numbers, vectors and arrays):** whenever
+both sides are accepted,
+`a * (b + c) = a * b + a * c`, `(a + b) + c = a + (b + c)`, `(a * b) * c = a * (b * c)`,
+`a - b = a + (-b)`, `a.real + 1j * a.imag = a`, `conj(a * b) = conj(a) * conj(b)` —
+equal values in every cell and equal validity.  (Through `eval_scalar_tree`: both sides have the
+same tree of scalars by the ring laws of the Gaussian rationals.) -/
+theorem algebra_laws (env : Env) (n : List Nat) (hwf : ∀ f ∈ env.fields, CFwf f ∧ f.mesh.n = n)
+    (a b c : Expr) (ha : a.elementwise = true) (hb : b.elementwise = true) (hc : c.elementwise = true) :
+    let same := fun (e1 e2 : Expr) => ∀ g1 g2, evalF env e1 = .ok (.fld g1) → evalF env e2 = .ok (.fld g2) →
+      ∀ i, inRange n i = true →
+        cellOf g1.data i g1.nvdim = cellOf g2.data i g2.nvdim ∧ g1.valid.get i = g2.valid.get i
+    same (.bin .mul a (.bin .add b c)) (.bin .add (.bin .mul a b) (.bin .mul a c)) ∧
+    same (.bin .add (.bin .add a b) c) (.bin .add a (.bin .add b c)) ∧
+    same (.bin .mul (.bin .mul a b) c) (.bin .mul a (.bin .mul b c)) ∧
+    same (.bin .sub a b) (.bin .add a (.un .neg b)) ∧
+    same (.bin .add (.un .real a) (.bin .mul (.opd exI) (.un .imag a))) a ∧
+    same (.un .conj (.bin .mul a b)) (.bin .mul (.un .conj a) (.un .conj b)) := by
+  intro same
+  have key : ∀ e1 e2 : Expr, e1.elementwise = true → e2.elementwise = true →
+      (∀ i, (evalCell env e1 i).length = (evalCell env e2 i).length) →
+      (∀ idx, scalarAt env e1 idx = scalarAt env e2 idx) →
+      (∀ i, validCell env e1 i = validCell env e2 i) → same e1 e2 := by
+    intro e1 e2 h1 h2 hl hs hv g1 g2 hg1 hg2 i hi
+    obtain ⟨hcell, v1, v2⟩ := scalar_ext env n hwf e1 e2 h1 h2 g1 g2 hg1 hg2 hl hs i hi
+    exact ⟨hcell, by rw [v1, v2, hv i]⟩
+  refine ⟨key _ _ ?_ ?_ ?_ ?_ ?_, key _ _ ?_ ?_ ?_ ?_ ?_, key _ _ ?_ ?_ ?_ ?_ ?_, key _ _ ?_ ?_ ?_ ?_ ?_,
+    key _ _ ?_ ?_ ?_ ?_ ?_, key _ _ ?_ ?_ ?_ ?_ ?_⟩
+  -- distributivity
+  · simp [Expr.elementwise, isElem, ha, hb, hc]
+  · simp [Expr.elementwise, isElem, ha, hb, hc]
+  · intro i; simp only [evalCell, binCell, bz_length_bl]; exact bl_distrib _ _ _
+  · intro idx; simp only [scalarAt, binFn]; exact GQ.mul_add' _ _ _
+  · intro i; simp only [validCell]
+    cases validCell env a i <;> cases validCell env b i <;> cases validCell env c i <;> rfl
+  -- associativity of +
+  · simp [Expr.elementwise, isElem, ha, hb, hc]
+  · simp [Expr.elementwise, isElem, ha, hb, hc]
+  · intro i; simp only [evalCell, binCell, bz_length_bl]; exact bl_assoc _ _ _
+  · intro idx; simp only [scalarAt, binFn]; exact GQ.add_assoc' _ _ _
+  · intro i; simp only [validCell, Bool.and_assoc]
+  -- associativity of *
+  · simp [Expr.elementwise, isElem, ha, hb, hc]
+  · simp [Expr.elementwise, isElem, ha, hb, hc]
+  · intro i; simp only [evalCell, binCell, bz_length_bl]; exact bl_assoc _ _ _
+  · intro idx; simp only [scalarAt, binFn]; exact GQ.mul_assoc' _ _ _
+  · intro i; simp only [validCell, Bool.and_assoc]
+  -- a - b = a + (-b)
+  · simp [Expr.elementwise, isElem, ha, hb]
+  · simp [Expr.elementwise, isElem, ha, hb]
+  · intro i; simp only [evalCell, binCell, bz_length_bl, List.length_map]
+  · intro idx; simp only [scalarAt, binFn, unFn]; exact GQ.sub_eq_add_neg' _ _
+  · intro i; simp only [validCell]
+  -- real + 1j * imag
+  · simp [Expr.elementwise, isElem, ha]
+  · exact ha
+  · intro i
+    simp only [evalCell, binCell, bz_length_bl, List.length_map, exI, rawCell, List.length_cons, List.length_nil]
+    unfold bl
+    by_cases h1 : (evalCell env a i).length = 1 <;> simp [h1]
+  · intro idx; simp only [scalarAt, binFn, unFn, exI]; exact GQ.re_im_recompose _
+  · intro i; simp only [validCell, Bool.true_and, Bool.and_self]
+  -- conj (a * b)
+  · simp [Expr.elementwise, isElem, ha, hb]
+  · simp [Expr.elementwise, isElem, ha, hb]
+  · intro i; simp only [evalCell, binCell, bz_length_bl, List.length_map]
+  · intro idx; simp only [scalarAt, binFn, unFn]; exact GQ.conj_mul _ _
+  · intro i; simp only [validCell]
+
+/-- both sides of the distributive law and of the recomposition are accepted on the example fields -/
+example : evalOk exEnv (.bin .mul (.leaf 3) (.bin .add (.leaf 0) (.opd exVec))) = true ∧
+    evalOk exEnv (.bin .add (.bin .mul (.leaf 3) (.leaf 0)) (.bin .mul (.leaf 3) (.opd exVec))) = true ∧
+    evalOk exEnv (.bin .add (.un .real (.leaf 0)) (.bin .mul (.opd exI) (.un .imag (.leaf 0)))) = true := by
+  decide +kernel
 
 end DFV.C03
